@@ -97,3 +97,22 @@ Theorem sort_indices_ok : forall r, wf_cs r ->
   /\ major (sort_indices r) = major r /\ minor (sort_indices r) = minor r.
 Proof. exact SparseProofs.sort_indices_ok. Qed.
 Print Assumptions sort_indices_ok.
+
+(* [more] the array view and the segment view are the same data: rebuilding the arrays from the
+   segments of a well-formed representation gives it back *)
+Theorem of_segs_segs : forall r, wf_cs r -> of_segs (minor r) (segs r) = r.
+Proof. exact SparseProofs.of_segs_segs. Qed.
+Print Assumptions of_segs_segs.
+
+(* [more] any well-formed representation without stored zeros stores exactly the non-zero cells *)
+Theorem stored_count : forall r, wf_cs r -> no_stored_zero r -> length (data r) = count_nonzero (dense_of r).
+Proof. exact SparseProofs.stored_count. Qed.
+Print Assumptions stored_count.
+
+(* [more] dense -> CSR (row-major scan, zeros dropped) is well formed, sorted, without stored zeros and
+   denotes the matrix *)
+Theorem of_dense_ok : forall c m, rect c m ->
+  wf_cs (of_dense c m) /\ sorted_cs (of_dense c m) /\ no_stored_zero (of_dense c m)
+  /\ dense_of (of_dense c m) = m /\ major (of_dense c m) = length m /\ minor (of_dense c m) = c.
+Proof. exact SparseProofs.of_dense_ok. Qed.
+Print Assumptions of_dense_ok.
